@@ -397,24 +397,72 @@ fn c19_local(rep: &mut Rep, r: &mut Rng, extra: usize) {
         rep.violation("finished_task_not_closed", "OnceTask[real-timer]", &case, json!({}));
       }
     }
-    // cancelled before it is due: never runs
-    {
-      let case = format!("rt:cancel:{}:{}", k, d.as_nanos());
-      let mut pool = LocalPool::new();
-      let runs = Runs::default();
-      let d2 = d + us(1000);
-      let h = pool.spawner().schedule(OnceTask::new(once_body, runs.clone()), Some(d2));
-      if r.below(2) == 0 {
-        pool.run_until_stalled();
+    // cancelled while it waits for its delay: no run after unsubscribe() has returned. Whether the
+    // cancellation really came before the body is OBSERVED, not assumed: the pool runs on this thread
+    // only, so the run count sampled right before unsubscribe() is what had happened by then. A thread
+    // that is held up inside run_until_stalled() for longer than the delay (a loaded machine) runs the
+    // body there, when it is due - that is the task doing its job, and the case is then a cancellation
+    // after completion (counted apart, same oracle: nothing after the cancellation, not early, once).
+    // Such a case is tried again with a longer delay so that the cancellations before the due time
+    // stay populated whatever the load.
+    // `hold` = a sibling task scheduled behind the timed one that keeps the thread busy past the due
+    // time inside the same run_until_stalled(): the late cancellation made on purpose.
+    for hold in [false, true] {
+      if hold && k % 4 != 0 {
+        continue;
       }
-      h.unsubscribe();
-      std::thread::sleep(d2 + us(500));
-      pool.run_until_stalled();
-      rep.count("real_timer_cases", 1);
-      rep.count("cancellations_before_due", 1);
-      let n = runs.0.lock().unwrap().len();
-      if n != 0 {
-        rep.violation("ran_after_cancel", "OnceTask[real-timer]", &case, json!({"runs": n}));
+      let mut d2 = d + us(1000);
+      for attempt in 0..4 {
+        let case = format!("rt:cancel:{}:{}:{}:{}", k, d.as_nanos(), hold, attempt);
+        let mut pool = LocalPool::new();
+        let runs = Runs::default();
+        let t0 = Instant::now();
+        let h = pool.spawner().schedule(OnceTask::new(once_body, runs.clone()), Some(d2));
+        if hold {
+          fn busy(d: Duration) -> NormalReturn<()> {
+            std::thread::sleep(d);
+            NormalReturn::new(())
+          }
+          let _s = pool.spawner().schedule(OnceTask::new(busy, d2 + us(300)), None);
+          pool.run_until_stalled();
+        } else if r.below(2) == 0 {
+          pool.run_until_stalled();
+        }
+        let before = runs.0.lock().unwrap().clone();
+        let closed_before = h.is_closed();
+        h.unsubscribe();
+        std::thread::sleep(d2 + us(500));
+        pool.run_until_stalled();
+        rep.count("real_timer_cases", 1);
+        let after = runs.0.lock().unwrap().len();
+        if after > before.len() {
+          rep.violation("ran_after_cancel", "OnceTask[real-timer]", &case, json!({"runs_before_unsubscribe": before.len(), "runs_afterwards": after}));
+        }
+        if before.len() > 1 {
+          rep.violation("wrong_run_count", "OnceTask[real-timer]", &case, json!({"runs": before.len(), "expected": "at most 1"}));
+        }
+        if let Some(first) = before.first() {
+          // it ran before the cancellation: then it was due
+          early("one-shot body that ran before its cancellation", rep, "OnceTask[real-timer]", &case, t0, d2, first.1);
+        }
+        if closed_before && before.is_empty() {
+          rep.violation("closed_but_can_still_act", "OnceTask[real-timer]", &case, json!({"why": "is_closed() was true while the body had not run and the task was not cancelled"}));
+        }
+        if before.is_empty() {
+          rep.count("cancellations_before_due", 1);
+          if hold {
+            // the sibling slept past the due time and the pool still did not run the body: it
+            // simply was not woken in time; nothing to conclude, and no retry needed
+            rep.count("held_up_cancellations_that_still_came_first", 1);
+          }
+          break;
+        }
+        rep.count("cancellations_after_the_body_had_run", 1);
+        if hold {
+          break;
+        }
+        // not the case that was meant: once more, with a delay eight times as long
+        d2 = d2 * 8;
       }
     }
     // repeating task: spacing and consecutive sequence numbers (zero period included)
